@@ -30,7 +30,7 @@ PROPS = {
         "assumptions": ["all SubRule methods are invoked on the same SubRule object (cells named by field)"],
     },
     "C05": {
-        "rules": [("SUP-1", sup.sup1), ("SUP-2", sup.sup2), ("SUP-4", sup.sup4), ("SUP-5", sup.sup5), ("SUP-7", r5.sup7), ("SHR-5", r5.shr5), ("TAB-8", r5.tab8)],
+        "rules": [("SUP-1", sup.sup1), ("SUP-2", sup.sup2), ("SUP-4", sup.sup4), ("SUP-5", sup.sup5), ("SUP-7", r5.sup7), ("SHR-5", r5.shr5), ("TAB-8", r5.tab8), ("SUP-8", r5.sup8)],
         "explanation": "Decides the table clauses of C05 by decision-table extraction: the matchers and setters of stress / sec.stress / long / overlong are small decision "
                        "trees over two finite domains (stress in {unstressed, primary, secondary}; length in {short, long, overlong}); the trees are read off the HIR (comparison "
                        "operators and constants, `while seg_len < N` / `> N` clamps, constants assigned to `.stress`, the true/false and Positive/Negative arms) and tabulated. "
@@ -47,7 +47,7 @@ PROPS = {
     },
     "C07": {
         "controls": ["BIT"],
-        "rules": [("SUP-3", sup.sup3), ("BIT-4", bit.bit4), ("POL-1", pol.pol1), ("VAR-1", flw2.var1), ("VAR-2", flw2.var2), ("VAR-3", r5.var3), ("TAB-9", r5.tab9)],
+        "rules": [("SUP-3", sup.sup3), ("BIT-4", bit.bit4), ("POL-1", pol.pol1), ("VAR-1", flw2.var1), ("VAR-2", flw2.var2), ("VAR-3", r5.var3), ("TAB-9", r5.tab9), ("VAR-4", r5.var4)],
         "explanation": "Decides the alpha half of C07 ('a feature, node, length or stress value copied by an alpha onto the element it was read from leaves every word as it was') "
                        "as a composition of extracted tables and proved identities: POL-1: the matcher captures `bit != 0` (false on an absent node) for α, its inverse for -α, and the "
                        "output applies set_feat(N, bit, α) resp. !α; BIT-4 (bit-level abstract interpretation, all segments): set_feat(N, bit, <value of that bit>) and "
@@ -76,7 +76,7 @@ PROPS = {
     },
     "C14": {
         "controls": ["FLW-guard"],
-        "rules": [("FLW-4", flw2.flw4), ("FLW-4g", r5.flw4g), ("TAB-8", r5.tab8)],
+        "rules": [("FLW-4", flw2.flw4), ("FLW-4g", r5.flw4g), ("TAB-8", r5.tab8), ("SUP-8", r5.sup8)],
         "explanation": "Decides the write-effect clauses of C14 on MIR: Segment::apply_seg_mods cannot reach a syllable by type; in Syllable::apply_syll_mods every write "
                        "of stress (tone) is reachable only on a Some edge of mods.stress[i] (mods.tone) and nothing else is written; in apply_supras every insertion/"
                        "removal of segment copies is reachable only on a Some edge of mods.length[i]; Syllable::apply_seg_mods only maps the segment-level function "
@@ -195,7 +195,7 @@ PROPS = {
         "assumptions": ["formatters keep binding the raw payload fields under the names group/line/kind"],
     },
     "C12": {
-        "rules": [("TAB-4", tab2.tab4), ("SHR-1", tab2.shr1), ("SHR-3", tab2.shr3), ("FLW-13", r5.flw13), ("ENV-5", r5.env5), ("SHR-5", r5.shr5)],
+        "rules": [("TAB-4", tab2.tab4), ("SHR-1", tab2.shr1), ("SHR-3", tab2.shr3), ("FLW-13", r5.flw13), ("ENV-5", r5.env5), ("SHR-5", r5.shr5), ("VAR-4", r5.var4)],
         "explanation": "Decides three table/shape clauses of C12. SHR-3: Parser::get_spec_env returns exactly two items, each an Environment with one Env: the first `before = X, after = []`, the second `before = [], after = X` passed through `rev()` (so Rule::split_into_subrules makes two sub-rules, `X_` then `_X` mirrored). SHR-1: in Rule::split_into_subrules each of the four lists (input, output, context, except) is indexed under a length test of that same list (a singleton is shared, otherwise element i) — necessary for 'a condensed rule behaves as its sub-rules'. TAB-4: the letter -> matrix table of Parser::group_to_matrix equals its "
                        "sibling in AliasParser and the table in doc/doc.md § Groupings (feature names resolved through the lexer's own synonym table).",
         "does_not_decide": "that the sub-rules behave as separate rules, optional bounds and `&` expansion (equalities between two interpreter runs).",
@@ -213,7 +213,7 @@ PROPS = {
         "assumptions": ["doc/doc.md keeps its '### Inbuilt Aliases' code blocks", "a helper that tests both members of a pair satisfies SYN-1 by itself"],
     },
     "C03": {
-        "rules": [("ENV-1", env.env1), ("ENV-2", env.env2), ("ENV-3", env.env3), ("FLW-12", flw.flw12), ("PAN-5", pan.pan5), ("FLW-13", r5.flw13), ("ENV-5", r5.env5), ("ENV-6", r5.env6)],
+        "rules": [("ENV-1", env.env1), ("ENV-2", env.env2), ("ENV-3", env.env3), ("FLW-12", flw.flw12), ("PAN-5", pan.pan5), ("FLW-13", r5.flw13), ("ENV-5", r5.env5), ("ENV-6", r5.env6), ("ENV-7", r5.env7)],
         "explanation": "Decides the plumbing clauses of C03 ('whose left neighbours match the context and do not match the exception', 'scanning left to right'), not the rewrite semantics. "
                        "ENV-1: in SubRule::match_contexts_and_exceptions, for contexts and for exceptions alike, the before-half is a reversed copy of the pair's first element, matched by "
                        "match_before_env on `word.reverse()` at `start_pos.reversed(word)`; the after-half is the pair's second element, matched by match_after_env on the word at end_pos; "
@@ -226,7 +226,7 @@ PROPS = {
     },
     "C04": {
         "controls": ["BIT"],
-        "rules": [("TAB-1", tab.tab1), ("TAB-2", tab.tab2), ("TAB-3", tab.tab3), ("BIT-3", bit.bit3), ("FLW-8", flw2.flw8), ("FLW-8c", r5.flw8c), ("ENV-4", env4mod.env4), ("POL-1", pol.pol1), ("SHR-5", r5.shr5), ("TAB-9", r5.tab9)],
+        "rules": [("TAB-1", tab.tab1), ("TAB-2", tab.tab2), ("TAB-3", tab.tab3), ("BIT-3", bit.bit3), ("FLW-8", flw2.flw8), ("FLW-8c", r5.flw8c), ("ENV-4", env4mod.env4), ("POL-1", pol.pol1), ("SHR-5", r5.shr5), ("TAB-9", r5.tab9), ("SUP-8", r5.sup8)],
         "explanation": "ENV-4: in match_contexts_and_exceptions the contexts are matched before the exceptions, so an alpha first bound in the context carries into the exception. POL-1 decides the sign clauses ('named value', 'or its inverse with -α') as sibling agreement: in each of the 39 matches on BinMod / AlphaMod of the library, arms with the same skeleton differ in polarity (never the same code for both signs), and the sites whose meaning the accessors fix -- third argument of Segment::set_feat / feat_match, `Alpha::Feature(f != 0)` -- receive the positive polarity in the Positive / Alpha arm and the negative one in the Negative / InvAlpha arm. FLW-8 decides the scoping clause of alpha binding ('in the same application'): on MIR, every call of input_match_at in SubRule::apply is dominated inside the scan loop by HashMap::clear of both `alphas` and `variables` (directly or through a SubRule method that clears on every path), and every restart of a partial input match in input_match_at (`state_index = 0` inside the loop) is paired in the same iteration with clears of both tables. BIT-3 decides the single-feature equations of C04 for all segments at once by bit-level abstract interpretation of Segment::{get_node,set_node,set_feat,feat_match}: on a symbolic segment (3 symbolic bytes, place = one of 17 presence shapes with symbolic payloads), for every node, single-bit mask and polarity: feat_match is the named bit (its negation for -) and false on an absent sub-node; set_feat(+) yields old|bit (creating an absent sub-node with its other bits 0), set_feat(-) yields old&!bit and is the identity on an absent sub-node; every other node reads exactly as before; the feature then matches with the polarity set. Tables: the hand-maintained index tables (FType/NodeType/NodeKind "
                        "from_usize & count, DiaFeatType = NodeType++FType, hm_to_mod split constant, modifier array lengths, "
                        "diacritics.json keys) agree, the 16-bit place packing is laid out consistently and used consistently by its accessors (TAB-3, see C18), and FType::to_node_mask maps every feature to exactly one bit, bits of a node "
